@@ -17,7 +17,7 @@ from ..slicegen.model import Alias, Attr, Custom, Enum, Enumerator, Field, File,
 
 PROP = "C03"
 LEVELS = ["A", "A::B", "A::B::C"]
-EXTRA = ["A::D", "Z"]
+EXTRA = ["A::D", "Z", "B"]
 KINDS = ["struct", "enum", "custom", "alias", "interface", None]
 SPELLINGS = ["X", "B::X", "C::X", "A::B::X", "::A::B::X", "::X", "A::X", "X::m", "A", "B", "D::X", "::A::B::C::X", "Z::X", "::Z::X", "A::B::C::X"]
 POSITIONS = ["field", "parameter", "return", "alias", "seq-elem", "dict-value", "enumerator-field", "base", "underlying"]
@@ -132,7 +132,7 @@ def arrangement_cases(idx, nshards, fraction, seed):
     """Yields (placement, extra_placement, ref_level)."""
     c = 0
     for placement in itertools.product(KINDS, repeat=3):
-        for extra in itertools.product(["struct", None], repeat=2):
+        for extra in itertools.product(["struct", None], repeat=len(EXTRA)):
             for ref_level in LEVELS + ["A::D"]:
                 c += 1
                 if c % nshards != idx:
@@ -263,6 +263,72 @@ def run_arrangements(ctx, spec):
     flush()
 
 
+def run_together(ctx, spec):
+    """All referencing modules at once: every valid (module, position, spelling) reference of an arrangement is compiled in ONE
+    program, so that resolutions made from different scopes can disturb each other (caches, shared state)."""
+    _, idx, nshards, fraction = spec
+    items = []
+    c = 0
+    for placement in itertools.product(KINDS, repeat=3):
+        for extra in itertools.product(["struct", None], repeat=len(EXTRA)):
+            c += 1
+            if c % nshards != idx:
+                continue
+            if fraction < 1.0 and ((c // nshards) * 7919 + ctx.seed) % int(round(1 / fraction)) != 0:
+                continue
+            base, _ = build_program(placement, extra, "A", [], 0)
+            table = base.table()
+            files = list(base.files[:-1])
+            valid = []
+            n = 0
+            ref_levels = LEVELS + ["A::D", "B", "Z"]
+            order = list(range(len(ref_levels)))
+            random.Random("%s/%d" % (ctx.seed, c)).shuffle(order)
+            for li in order:
+                level = ref_levels[li]
+                refdefs = []
+                for position in POSITIONS:
+                    for spelling in SPELLINGS:
+                        n += 1
+                        v = verdict(table, position, spelling, level)
+                        if v[0] == "ok":
+                            d, t = ref_def(position, spelling, n)
+                            refdefs.append(d)
+                            valid.append((position, spelling, n, v, level))
+                files.append(File(level, refdefs))
+            prog = Program(files)
+            items.append((printer.print_program(prog), valid, placement, extra))
+            ctx.note_case(("together", placement, extra))
+    for k in range(0, len(items), 40):
+        chunk = items[k:k + 40]
+        resps = ctx.worker.batch([{"op": "compile", "files": it[0], "want": ["ast", "codes"]} for it in chunk])
+        for (texts, valid, placement, extra), r in zip(chunk, resps):
+            ctx.stats["together_programs"] += 1
+            replay = {"kind": "library", "call": "compile_from_strings", "files": texts, "family": "arrangement-together"}
+            if "died" in r or r.get("panic"):
+                p = r.get("panic") or {"message": "worker " + r["died"], "location": "?"}
+                ctx.violate(core.panic_signature(p), "resolution crashed: %s" % p, replay)
+                continue
+            errs = [x for x in r["codes"] if x[1] == "error"]
+            if errs:
+                replay["codes"] = errs[:5]
+                ctx.violate("valid-reference-rejected-together:" + errs[0][0], "references that all designate a proper entity were rejected when "
+                            "compiled together: %r (X placed %s/%s)" % (errs[0], placement, extra), replay)
+                continue
+            for position, spelling, k2, v, level in valid:
+                d = find_ref_dump(r["files"], "R%d" % k2)
+                ctx.stats["bindings_checked_together"] += 1
+                if d is None:
+                    ctx.violate("ref-definition-missing", "definition R%d not found in the AST" % k2, replay)
+                    break
+                ok, why = bound_matches(d, v, position)
+                if not ok:
+                    ctx.violate("wrong-binding-together:%s:%s" % (position, spelling),
+                                "reference '%s' in %s position from module %s (X placed %s/%s), compiled together with references from the "
+                                "other modules: %s" % (spelling, position, level, placement, extra, why), replay)
+                    break
+
+
 # ---------------------------------------------------------------------------------------------------------------
 # alias chains
 
@@ -270,41 +336,59 @@ ENDS = ["prim", "seq", "dict", "result", "struct", "enum", "custom"]
 
 
 def chain_program(rng, length, end, position, loop=False, cross=True):
-    """Builds aliases L0 -> L1 -> ... -> end, each with an attribute on its type; a use of L0 with its own attribute."""
-    target_struct = Struct("TS", [Field("x", TypeExpr("prim", "bool"))])
-    target_enum = Enum("TE", [Enumerator("V")])
-    target_custom = Custom("TC")
-    modules = ["A", "A::B", "A::B::C", "A"] if cross else ["A"] * 4
-    defs_by_module = {m: [] for m in set(modules) | {"A"}}
-    defs_by_module["A"] += [target_struct, target_enum, target_custom]
+    """Aliases L0 -> L1 -> ... -> end, each with an attribute on its type, spread over modules and written with any spelling that
+    designates the next link *from the module of the alias that holds it*; same-named decoys (aliases and end types) live in the
+    other modules, so that a lookup made from the wrong scope binds to something else. A use of L0 with its own attribute."""
+    mods = ["A", "A::B", "A::B::C", "Z"] if cross else ["A"]
+    per_module = {m: [] for m in mods}
+    ends = {}
+    for m in (["A", "A::B", "Z"] if cross else ["A"]):
+        ts = Struct("TS", [Field("x" + m.replace("::", "_"), TypeExpr("prim", "bool"))])
+        te = Enum("TE", [Enumerator("V" + m.replace("::", "_"))])
+        tc = Custom("TC")
+        per_module[m] += [ts, te, tc]
+        ends[m] = {"struct": ts, "enum": te, "custom": tc}
     aliases = []
     for i in range(length):
-        a = Alias("L%d" % i, None)
-        a.module = modules[i % len(modules)]
-        aliases.append(a)
-    for i, a in enumerate(aliases):
+        a = Alias("L%d" % i, TypeExpr("prim", "bool"))
+        m = rng.choice(mods)
+        per_module[m].append(a)
+        aliases.append((a, m))
+        # a decoy with the same name elsewhere
+        if cross and rng.random() < 0.7:
+            dm = rng.choice([x for x in mods if x != m])
+            per_module[dm].append(Alias("L%d" % i, TypeExpr("prim", rng.choice(["uint8", "float32", "varint62"]))))
+    use_module = rng.choice(mods)
+    user_holder = []
+    files = [File(m, ds) for m, ds in per_module.items()]
+    prog = Program(files)
+    table = prog.table()
+
+    def spell(target, from_module):
+        options = [sp for sp in resolve.spellings_for(target) if resolve.lookup(table, sp, from_module) is target]
+        return rng.choice(options)
+
+    for i, (a, m) in enumerate(aliases):
         attrs = [Attr("link::l%d" % i, ["a%d" % i])] if rng.random() < 0.8 else []
         if i + 1 < length:
-            nxt = aliases[i + 1]
-            t = TypeExpr("named", "::%s::%s" % (nxt.module, nxt.id), attrs=attrs)
+            t = TypeExpr("named", spell(aliases[i + 1][0], m), attrs=attrs)
         elif loop:
-            back = aliases[rng.randrange(length)]
-            t = TypeExpr("named", "::%s::%s" % (back.module, back.id), attrs=attrs)
+            t = TypeExpr("named", spell(aliases[rng.randrange(length)][0], m), attrs=attrs)
         elif end == "prim":
             t = TypeExpr("prim", rng.choice(["int32", "string", "float64"]), attrs=attrs)
-        elif end == "seq":
-            t = TypeExpr("seq", args=[TypeExpr("prim", "bool", attrs=[Attr("in::ner")])], attrs=attrs)
-        elif end == "dict":
-            t = TypeExpr("dict", args=[TypeExpr("prim", "string"), TypeExpr("named", "::A::TS", optional=True)], attrs=attrs)
-        elif end == "result":
-            t = TypeExpr("result", args=[TypeExpr("named", "::A::TE"), TypeExpr("prim", "string")], attrs=attrs)
         else:
-            t = TypeExpr("named", {"struct": "::A::TS", "enum": "::A::TE", "custom": "::A::TC"}[end], attrs=attrs)
+            em = rng.choice(list(ends))
+            if end == "seq":
+                t = TypeExpr("seq", args=[TypeExpr("named", spell(ends[em]["struct"], m), attrs=[Attr("in::ner")])], attrs=attrs)
+            elif end == "dict":
+                t = TypeExpr("dict", args=[TypeExpr("prim", "string"), TypeExpr("named", spell(ends[em]["struct"], m), optional=True)], attrs=attrs)
+            elif end == "result":
+                t = TypeExpr("result", args=[TypeExpr("named", spell(ends[em]["enum"], m)), TypeExpr("prim", "string")], attrs=attrs)
+            else:
+                t = TypeExpr("named", spell(ends[em][end], m), attrs=attrs)
         a.underlying = t
-        defs_by_module[a.module].append(a)
-    use_module = rng.choice(["A", "A::B::C", "Z"]) if cross else "A"
     own = [Attr("use::site", ["u"])] if rng.random() < 0.7 else []
-    use_t = TypeExpr("named", "::%s::L0" % aliases[0].module, optional=rng.random() < 0.5 and position != "alias", attrs=own)
+    use_t = TypeExpr("named", spell(aliases[0][0], use_module), optional=rng.random() < 0.5 and position != "alias", attrs=own)
     if position == "field":
         user = Struct("User", [Field("f", use_t)])
     elif position == "parameter":
@@ -319,8 +403,8 @@ def chain_program(rng, length, end, position, loop=False, cross=True):
         user = Struct("User", [Field("f", TypeExpr("dict", args=[TypeExpr("prim", "int32"), use_t]))])
     else:
         user = Enum("User", [Enumerator("V", None, [Field("f", use_t)])])
-    defs_by_module.setdefault(use_module, []).append(user)
-    files = [File(m, ds) for m, ds in defs_by_module.items() if ds]
+    per_module[use_module].append(user)
+    files = [File(m, ds) for m, ds in per_module.items() if ds]
     rng.shuffle(files)
     return Program(files)
 
@@ -392,12 +476,13 @@ def run_random(ctx, spec):
 
 
 def run_shard(ctx, spec):
-    {"arr": run_arrangements, "chains": run_chains, "random": run_random}[spec[0]](ctx, spec)
+    {"arr": run_arrangements, "together": run_together, "chains": run_chains, "random": run_random}[spec[0]](ctx, spec)
 
 
 def plan(tier, seed):
     frac = 0.34 if tier == "quick" else 1.0
     specs = [("arr", i, 32, frac) for i in range(32)]
+    specs += [("together", i, 16, 0.5 if tier == "quick" else 1.0) for i in range(16)]
     n = 2000 if tier == "quick" else 30000
     specs += [("chains", n // 16, i) for i in range(16)]
     n = 600 if tier == "quick" else 10000
@@ -418,7 +503,7 @@ def main(tier, seed):
               "forms x 7 positions, across files/modules, 15%% with a loop. Random programs: lookup by scoped name. "
               "distinct_nontrivial = distinct arrangements / chain programs / random programs" % (len(SPELLINGS), len(POSITIONS))),
         required={"arrangements": 300, "bindings_checked": 3000, "invalid_refs_checked": 3000, "alias_chains_flattened": 500,
-                  "alias_chain_loops": 50, "lookups_checked": 1000, "random_programs": 100},
+                  "alias_chain_loops": 50, "lookups_checked": 1000, "random_programs": 100, "together_programs": 200, "bindings_checked_together": 10000},
         assumptions=["first match wins, then its kind is checked (a wrong-kind inner match is an error, the search does not continue)",
                      "carried alias attributes are compared as a multiset after the use site's own attributes"],
         exhaustive=(tier == "thorough"),
